@@ -114,6 +114,8 @@ class C17(SmallSuite):
                 box = (lo, hi)
                 ops.append({"op": "setbounds", "lower": lo, "upper": hi})
                 n_bounds += 1
+            elif u < 0.878 and N >= 1:
+                ops.append({"op": "sibling", "m": rng.choice([d for d in range(1, min(20, 50 // N) + 1) if d != m] or [m])})
             elif u < 0.885:
                 # a SetBounds whose upper argument is malformed (too few components / a scalar / 2-D) while the lower one is a
                 # good, different vector.  If the object accepts it, it has been configured with garbage and the run ends there;
@@ -161,6 +163,7 @@ class C17(SmallSuite):
             _reraise_if_harness(e)
             bad("construct", "Evolvent(...) raised %r" % (e,))
             return rep
+        siblings = []
         returned = []     # (live array, copy at return time, scribbled?)
         kinds = set()
         bounds_between = False
@@ -217,6 +220,12 @@ class C17(SmallSuite):
                     events.append("setbounds")
                     if q_before_bounds:
                         bounds_between = True
+                elif k == "sibling":
+                    # another Evolvent (other density, same dimension) is constructed and kept alive next to this one
+                    siblings.append(Evolvent(np.array(cur[0]), np.array(cur[1]), N, int(op["m"])))
+                    siblings[-1].GetImage(0.3)
+                    rep.probes["sibling_evolvents"] += 1
+                    events.append("sibling m=%d" % op["m"])
                 elif k == "bad_setbounds":
                     rep.probes["malformed_setbounds"] += 1
                     uk = op["upper_kind"]
@@ -404,6 +413,18 @@ class C15(SmallSuite):
         if len(gm) == 2 and rng.random() < 0.6:
             n0 = members[gm[0]]["args"][0]
             members[gm[1]]["args"] = [min(100, max(1, n0 + rng.choice([-1, 1, 1])))]     # neighbours in the generator's sequence
+        if fam0 in ("Hill", "Shekel") and rng.random() < 0.3 and len(members) >= 2:
+            # both one-dimensional families tabulated over one shared list of Point objects, same function number
+            k0, k1 = list(members)[:2]
+            n0 = members[k0]["args"][0]
+            members[k0] = {"cls": "Hill", "args": [n0]}
+            members[k1] = {"cls": "Shekel", "args": [n0]}
+            pts[k1] = [{"kind": "frac", "t": [float("%.3g" % (0.02 + 0.09 * rng.random()))] * 5} for _ in range(2)]    # inside [0,1] of both boxes
+            pts[k0] = [dict(p, abs=True) for p in pts[k1]]
+            pts[k1] = [dict(p, abs=True) for p in pts[k1]]
+            shared_points = True
+        else:
+            shared_points = False
         if rng.random() < 0.5:
             # sibling members of one class (same box) are asked about exactly the same points
             first = {}
@@ -457,7 +478,7 @@ class C15(SmallSuite):
             else:
                 ops.append({"op": "drop", "slot": rng.randrange(len(slots))})
         return {"property": self.prop, "suite": "problems", "format": 1, "run_seed": run_seed, "members": members,
-                "points": pts, "ops": ops}
+                "points": pts, "ops": ops, "shared_point_objects": shared_points}
 
     def check(self, plan):
         rep = Report()
@@ -473,7 +494,9 @@ class C15(SmallSuite):
             st = structured[mk]
             pts[mk] = []
             for p in lst:
-                if p["kind"] == "special" and st["special"]:
+                if p.get("abs"):
+                    pts[mk].append([float(p["t"][i]) for i in range(st["N"])])      # absolute coordinates (shared by two families)
+                elif p["kind"] == "special" and st["special"]:
                     pts[mk].append(list(st["special"][p["i"] % len(st["special"])]))
                 else:
                     t = p.get("t", [0.5] * 5)
@@ -484,6 +507,7 @@ class C15(SmallSuite):
         rep.n_exec = 2
         slots = {}
         bufs = {}
+        shared_pts = {}
         holders = {}
         events = []
         seen = {}
@@ -568,6 +592,12 @@ class C15(SmallSuite):
                         arr = np.array([int(v) for v in pt]) if (i % 2) else [int(v) for v in pt]     # int64 array / list of python ints
                         rep.probes["int_typed_points"] += 1
                     cp = np.array(arr, copy=True) if not isinstance(arr, list) else list(arr)
+                    point_obj = Point(arr, [])
+                    if plan.get("shared_point_objects") and not op.get("buf") and not isinstance(arr, list):
+                        # ONE Point object per coordinate tuple, whichever instance is asked
+                        point_obj = shared_pts.setdefault(tuple(pt), point_obj)
+                        arr = point_obj.floatVariables
+                        rep.probes["evaluations_through_a_shared_point_object"] += 1
                     holder = FunctionValue() if fid is None else FunctionValue(FunctionType.CONSTRAINT, fid)
                     if op.get("holder") == "reuse":
                         holder = holders.setdefault((op["slot"], fid), holder)
@@ -575,7 +605,7 @@ class C15(SmallSuite):
                     elif op.get("holder") == "preset":
                         holder.value = 1e6
                         rep.probes["preset_holder_evaluations"] += 1
-                    ret = prob.Calculate(Point(arr, []), holder)
+                    ret = prob.Calculate(point_obj, holder)
                     want = clean[(mk, tuple(pt), fid)]
                     events.append("evaluate %s %s -> %s" % (mk, core.vhex(pt), core.fhex(getattr(ret, "value", float("nan")))))
                     if ret is not holder:
@@ -928,8 +958,11 @@ class C19(SmallSuite):
                 ops.append({"op": "walk_while_other_is_used", "other_kind": rng.choice(["single", "dual"]),
                             "do": [rng.choice(["find", "walk", "insert", "best"]) for _ in range(rng.randint(1, 3))],
                             "q": float("%.4g" % rng.random())})
-        return {"property": self.prop, "suite": "containers", "format": 1, "run_seed": run_seed, "kind": kind,
+        plan = {"property": self.prop, "suite": "containers", "format": 1, "run_seed": run_seed, "kind": kind,
                 "maxlen": maxlen, "ops": ops}
+        if rng.random() < 0.1:
+            plan["empty_value_lists"] = True
+        return plan
 
     def check(self, plan):
         if "enum" in plan:
@@ -1030,7 +1063,10 @@ class C19(SmallSuite):
         best_after = False
 
         def mk(x, g, l):
-            it = SearchDataItem(Point(np.array([x]), []), x)
+            if plan.get("empty_value_lists") and (len(items) % 3 == 1):
+                it = SearchDataItem(Point(np.array([x]), []), x, functionValues=[])      # an item that carries no value holder (legal)
+            else:
+                it = SearchDataItem(Point(np.array([x]), []), x)
             it.globalR = g
             it.localR = l
             i = nid[0]
